@@ -43,6 +43,10 @@ def docs_for(ref):
         "dest": "[l](/p%sz)" % ref,
         "title": "[l](/u \"t%sz\")" % ref,
         "refdef": "[l][r]\n\n[r]: /p%sz 't%sz'" % (ref, ref),
+        "title_sq": "[l](/u 't%sz')" % ref,
+        "title_par": "[l](/u (t%sz))" % ref,
+        "refdef_dq": "[l][r]\n\n[r]: </p%sz> \"t%sz\"" % (ref, ref),
+        "refdef_par": "[l][r]\n\n[r]: /p%sz\n  (t%sz)" % (ref, ref),
         "info": "```q%sz\nc\n```" % ref,
     }
 
@@ -60,7 +64,9 @@ def cases(rng, tier, Case):
     if tier == "quick":
         by_len = sorted(names, key=len)
         names = by_len[:15] + by_len[-25:] + rng.sample(names, min(len(names), 120)) + ["&amp;", "&lt;", "&gt;", "&quot;", "&nbsp;", "&ngE;", "&NotEqualTilde;", "&fjlig;", "&Tab;", "&NewLine;"]
-    refs = names + numeric_refs(rng, tier) + ["\\" + c for c in PUNCT]
+    # references and escapes whose decoded form again looks like a reference or an escape: decoded exactly once everywhere
+    layered = ["&amp;lt;", "&amp;amp;", "&amp;#65;", "&#38;amp;", "&amp;copy;", "&#x26;#x26;", "\\\\\\*", "\\\\&amp;", "&amp;\\*", "\\&amp;lt;", "&#92;*", "&#92;&#92;"]
+    refs = names + numeric_refs(rng, tier) + ["\\" + c for c in PUNCT] + layered
     for r in refs:
         for ctx, d in docs_for(r).items():
             res.append(Case("parse Cs 100 TR %s" % hx(d), "ctx-" + ctx, {"ref": r, "ctx": ctx, "src": hx(d)}))
@@ -99,6 +105,10 @@ def decoded(case, f):
     if ctx == "text":
         txt = b"".join(text_arg(n) for n in nodes if n.kind in ("Text", "TextSpecial"))
         return txt[1:-1] if txt.startswith(b"a") and txt.endswith(b"z") else None
+    if ctx.startswith("title"):
+        ctx = "title"
+    if ctx.startswith("refdef"):
+        ctx = "refdef"
     if ctx in ("dest", "refdef"):
         links = [n for n in nodes if n.kind == "Link"]
         if len(links) != 1:
